@@ -5,4 +5,6 @@
 // simd_op_t<x86_avx_t,T>::mul: _mm256_mullo_epi16 / _mm256_mullo_epi32 only
 #define C12I_NO_MUL8
 #define C12I_NO_MUL64
+// simd_op_t<...>::fmadd: _ps / _pd intrinsics only, an integer matmul does not compile
+#define C12I_NO_MATMUL
 #include "h_c12_int_common.hpp"
